@@ -80,7 +80,8 @@ def run_case(plan_factory, requests=(), decision="resume", *, fail_call=None, fa
         ncall = [0]
         msg_times = []
         msg_deferred = []
-        RE.msg_hook = lambda m: (lab.msgs.append(m), msg_meta.append((lab.steps, ncall[0])), msg_times.append(lab.clock.t), msg_deferred.append(bool(RE._deferred_pause_requested)))
+        msg_kw = []  # keyword arguments of every message as they were when the engine received it (a Msg can be mutated later)
+        RE.msg_hook = lambda m: (lab.msgs.append(m), msg_kw.append(dict(m.kwargs)), msg_meta.append((lab.steps, ncall[0])), msg_times.append(lab.clock.t), msg_deferred.append(bool(RE._deferred_pause_requested)))
         lab.docs_meta = doc_meta
         tok = RE.subscribe(lambda n, d: doc_meta.append((lab.steps, ncall[0], lab.clock.t)))
 
@@ -115,7 +116,7 @@ def run_case(plan_factory, requests=(), decision="resume", *, fail_call=None, fa
             # an earlier, unrelated call on the same engine (its documents and messages are discarded)
             lab.hook = None
             lab.call(RE, prelude(lab))
-            del lab.docs[:], lab.msgs[:], lab.trans[:], lab.trans_meta[:], lab.ledger[:], lab.ledger_msg[:], msg_meta[:], doc_meta[:], msg_times[:], msg_deferred[:]
+            del msg_kw[:], lab.docs[:], lab.msgs[:], lab.trans[:], lab.trans_meta[:], lab.ledger[:], lab.ledger_msg[:], msg_meta[:], doc_meta[:], msg_times[:], msg_deferred[:]
             lab.ncalls = 0
             lab.hook = hook
         lab.steps = 0
@@ -144,6 +145,7 @@ def run_case(plan_factory, requests=(), decision="resume", *, fail_call=None, fa
             record(decision, lab.call(getattr(RE, decision)))
         obs.state = str(RE.state)
         obs.msgs, obs.msg_meta, obs.msg_times, obs.msg_deferred = list(lab.msgs), msg_meta, msg_times, msg_deferred
+        obs.msg_kw = msg_kw
         obs.docs, obs.doc_meta = list(lab.docs), doc_meta
         obs.trans = list(lab.trans)
         obs.trans_meta = list(lab.trans_meta)
